@@ -129,6 +129,8 @@ class Check(PropCheck):
         ops.append(['md', 'style'])
         ops.append(['sss', [['display', 'block'], ['paddingTop', '5px']]])
         ops.append(['sss', [['padding-top', ''], ['color', 'red'], ['display', '']]])
+        ops.append(['sss', [['paddingTop', ''], ['fontWeight', '']]])          # camelCase names address the dash properties, also to remove
+        ops.append(['sss', [['paddingTop', ''], ['color', 'blue']]])
         if not small:
             ops.append(['self'])
             ops.append(['sss', []])
